@@ -335,6 +335,11 @@ def regex_backtracking(repo, tier):
 
 EXTRA = EXTRA + [regex_backtracking]
 
+# ------------------------------- the attachment route: EmailContent.iterate_supported_attachments (contracts/c01_attach.py) --
+from contracts import c01_attach as _att  # noqa: E402
+
+EXTRA = EXTRA + list(_att.EXTRA)
+
 BOUNDED = ["regex patterns whose position automaton has EDA are decided by a BOUNDED pumping experiment on CPython's matcher (decreases#regex-eda-pump-*: "
            "k <= 100 pumps, every witness cycle x 13 suffixes x the match modes the module uses; pristine: rtf_extractor._RE_PICT); polynomial backtracking of high degree is not decided",
            "termination NOT decided for: pdf_extractor._TableExtractor._extract while-0 (125-line line classifier, more than 4000 paths per iteration; "
